@@ -6,7 +6,8 @@ Core Lean only.
 import JsonV.Lemmas.EncValue
 
 namespace JsonV.Lemmas.EncRaw
-open JsonV JsonV.Model JsonV.Model.Encoder JsonV.Spec JsonV.Spec.PDA JsonV.Spec.Render
+open JsonV JsonV.Model JsonV.Model.Encoder JsonV.Spec JsonV.Spec.PDA JsonV.Spec.Render JsonV.Spec.Names
+open JsonV.Lemmas.StateRefine JsonV.Lemmas.StateRun JsonV.Lemmas.EncRender JsonV.Lemmas.EncIff JsonV.Lemmas.EncValue
 
 def litNull : Bytes := [0x6e, 0x75, 0x6c, 0x6c]
 def litFalse : Bytes := [0x66, 0x61, 0x6c, 0x73, 0x65]
@@ -546,5 +547,214 @@ theorem raw_all (o : Opts) : ∀ fuel, PV o fuel ∧ PO o fuel ∧ PA o fuel := 
   | succ fuel ih =>
     obtain ⟨hV, hO, hA⟩ := ih
     exact ⟨pv_step o fuel hO hA, po_step o fuel hV hO, pa_step o fuel hV hA⟩
+
+/-! ### WriteValue as a whole -/
+
+/-- `beforeToken` for the kind byte of a raw value (never a closing delimiter). -/
+theorem beforeValue_eq (e : Enc) (k : UInt8) (hk : IsValueKind k) (hb : BottomArr (abs e.m)) :
+    beforeToken e k = e.out ++ sepBytes e.o (abs e.m) .lit := by
+  have c1 : (k != 0x7d && k != 0x5d) = (Kind.lit.byte != 0x7d && Kind.lit.byte != 0x5d) := by
+    rcases hk with h | h | h | h | h | h | h <;> subst h <;> decide
+  have c2 : (k == 0x7d || k == 0x5d) = (Kind.lit.byte == 0x7d || Kind.lit.byte == 0x5d) := by
+    rcases hk with h | h | h | h | h | h | h <;> subst h <;> decide
+  have hd : e.m.needDelim k = delimByte (delim (abs e.m) .lit) := by
+    rw [needDelim_congr e.m k Kind.lit.byte c1]; exact needDelim_abs hb .lit
+  have hi : e.m.needIndent k = indent (abs e.m) .lit := by
+    rw [needIndent_congr e.m k Kind.lit.byte c1 c2]; exact needIndent_abs e.m .lit
+  simp only [beforeToken, appendWhitespace, Machine.mayAppendDelim, hd, hi, sepBytes, appendIndent_eq]
+  cases delim (abs e.m) Kind.lit <;> simp [delimByte] <;>
+    cases e.o.spaceAfterColon <;> cases e.o.spaceAfterComma <;> cases e.o.multiline <;> simp
+
+theorem append_stack {m m' : Machine} (h : m.appendLiteral = .ok m') : m'.stack = m.stack := by
+  unfold Machine.appendLiteral at h
+  split at h
+  · cases h
+  · split at h
+    · cases h
+    · cases h; rfl
+
+theorem appendString_stack {m m' : Machine} (h : m.appendString = .ok m') : m'.stack = m.stack := by
+  unfold Machine.appendString at h
+  split at h
+  · cases h
+  · cases h; rfl
+
+theorem pushpop_obj_stack {max : Nat} {m m1 m2 : Machine} (h1 : m.pushObject max = .ok m1)
+    (h2 : m1.popObject = .ok m2) : m2.stack = m.stack := by
+  unfold Machine.pushObject at h1
+  split at h1
+  · cases h1
+  · split at h1
+    · cases h1
+    · split at h1
+      · cases h1
+      · cases h1
+        unfold Machine.popObject at h2
+        simp at h2
+        split at h2
+        · cases h2
+        · split at h2
+          · cases h2
+          · cases h2; simp
+
+theorem pushpop_arr_stack {max : Nat} {m m1 m2 : Machine} (h1 : m.pushArray max = .ok m1)
+    (h2 : m1.popArray = .ok m2) : m2.stack = m.stack := by
+  unfold Machine.pushArray at h1
+  split at h1
+  · cases h1
+  · split at h1
+    · cases h1
+    · split at h1
+      · cases h1
+      · cases h1
+        unfold Machine.popArray at h2
+        simp at h2
+        split at h2
+        · cases h2
+        · split at h2
+          · cases h2
+          · cases h2; simp
+
+theorem liftSM_map_ok {x : Except SMErr Machine} {ns ns' : List (List Bytes)} {m : Machine}
+    (h : (liftSM x).map (fun m => (m, ns)) = .ok (m, ns')) : x = .ok m := by
+  cases x with
+  | ok m0 => simp [liftSM, Except.map] at h; rw [h.1]
+  | error e => simp [liftSM, Except.map] at h
+
+/-- The state-machine part of `WriteValue` never changes the depth. -/
+theorem valueSM_stack {e : Enc} {k : UInt8} {lit : Bytes} {m : Machine} {ns : List (List Bytes)}
+    (h : valueSM e k lit = .ok (m, ns)) : m.stack = e.m.stack := by
+  unfold valueSM at h
+  split at h
+  · exact append_stack (liftSM_map_ok h)
+  split at h
+  · split at h
+    · cases h
+    · exact appendString_stack (liftSM_map_ok h)
+  split at h
+  · exact append_stack (liftSM_map_ok (x := e.m.appendNumber) h)
+  split at h
+  · split at h
+    · cases h
+    · rename_i m1 h1
+      split at h
+      · rename_i m2 h2
+        cases h; exact pushpop_obj_stack h1 h2
+      · cases h
+  split at h
+  · split at h
+    · cases h
+    · rename_i m1 h1
+      split at h
+      · rename_i m2 h2
+        cases h; exact pushpop_arr_stack h1 h2
+      · cases h
+  · cases h; rfl
+
+
+theorem renderFrom_append (o : Opts) (ts us : List Tok) : ∀ (fs fs' : Frames),
+    run o.maxDepth fs (ts.map kindOf) = some fs' →
+    renderFrom o fs (ts ++ us) = renderFrom o fs ts ++ renderFrom o fs' us := by
+  induction ts with
+  | nil => intro fs fs' h; simp [run] at h; subst h; simp [renderFrom]
+  | cons t ts ih =>
+    intro fs fs' h
+    simp only [List.map_cons, run] at h
+    cases hs : step o.maxDepth fs (kindOf t) with
+    | none => rw [hs] at h; cases h
+    | some fs1 =>
+      rw [hs] at h
+      simp only [List.cons_append, renderFrom, hs, ih fs1 fs' h, List.append_assoc]
+
+/-- A raw string (possibly in name position). -/
+theorem string_value (o : Opts) (fuel : Nat) (pre dst dst' rest : Bytes) (c : UInt8) (s : Bytes)
+    (f : Frame) (r0 : List Frame) (d : Nat) (hk : normKind c = 0x22)
+    (hd : dst = pre ++ sepBytes o (f :: r0) .lit)
+    (h : reformatValue o (fuel + 1) dst (c :: s) d = .ok (dst', rest)) :
+    ∃ toks, tokValue o (fuel + 1) (c :: s) = some (toks, rest) ∧ ∀ more,
+      pre ++ renderFrom o (f :: r0) (toks ++ more) = dst' ++ NL (f.bump :: r0) ++ renderFrom o (f.bump :: r0) more := by
+  simp only [reformatValue] at h
+  have k1 : ¬ normKind c = 0x6e := by rw [hk]; decide
+  have k2 : ¬ normKind c = 0x66 := by rw [hk]; decide
+  have k3 : ¬ normKind c = 0x74 := by rw [hk]; decide
+  rw [if_neg k1, if_neg k2, if_neg k3, if_pos hk] at h
+  cases hl : reformatString o (c :: s) with
+  | error x => rw [hl] at h; simp [Except.map] at h
+  | ok p =>
+    obtain ⟨q, name, r⟩ := p
+    rw [hl] at h
+    simp only [Except.map, Except.ok.injEq, Prod.mk.injEq] at h
+    obtain ⟨h1, h2⟩ := h
+    subst h1 h2
+    refine ⟨[.str name], by simp [tokValue, hk, hl], fun more => ?_⟩
+    have hs : step o.maxDepth (f :: r0) (kindOf (.str name)) = some (f.bump :: r0) := by simp [step, kindOf]
+    have hsep : sepBytes o (f :: r0) (kindOf (.str name)) = sepBytes o (f :: r0) .lit := sep_indep _ _ _ _ rfl
+    simp only [List.singleton_append, renderFrom_cons more hs, hsep, hd, List.append_assoc, tokText,
+      reformatString_out hl]
+
+/-- **One accepted `WriteValue`** from a reachable state appends exactly the rendering of the value's
+tokens (separator, reformatted text in the layout of the options, newline at top level). -/
+theorem writeValue_render {o : Opts} {b : Nat} {fs : Frames} {ns : List (List Bytes)} {e e' : Enc}
+    (hI : EncInv o b fs ns e) (hb : b + 2 < 2^61) (v : Bytes) (h : writeValue e v = (e', none)) :
+    ∃ toks rest, tokValue o (2 * v.length + 2) (skipWS v) = some (toks, rest) ∧
+      e'.out = e.out ++ renderFrom o fs toks := by
+  rw [writeValue_nf, hI.opts] at h
+  cases hr : reformatValue o (2 * v.length + 2) (beforeToken e (valueKind v)) (skipWS v) e.m.depth with
+  | error err => rw [hr] at h; simp at h
+  | ok p =>
+    obtain ⟨b', rest⟩ := p
+    rw [hr] at h
+    simp only at h
+    cases hw : skipWS rest with
+    | cons c r => rw [hw] at h; simp at h
+    | nil =>
+      rw [hw] at h
+      simp only at h
+      cases hv : valueSM e (valueKind v) (b'.drop (beforeToken e (valueKind v)).length) with
+      | error err => rw [hv] at h; simp at h
+      | ok q =>
+        obtain ⟨m, ns'⟩ := q
+        rw [hv] at h
+        simp only [Prod.mk.injEq, and_true] at h
+        subst h
+        obtain ⟨c, s, hsrc, hkc⟩ := reformat_ok_kind hr
+        have hkind : valueKind v = normKind c := by simp [valueKind, hsrc]
+        have hk : IsValueKind (valueKind v) := by rw [hkind]; exact hkc
+        have hfs : abs e.m = fs := hI.abs_eq
+        cases hfs' : fs with
+        | nil => rw [hfs'] at hfs; simp [abs] at hfs
+        | cons f r0 =>
+          have hbt : beforeToken e (valueKind v) = e.out ++ sepBytes o (f :: r0) .lit := by
+            rw [beforeValue_eq e _ hk (by rw [hfs]; exact hI.bottom), hI.opts, hfs, hfs']
+          have hdepth : e.m.depth = (f :: r0).length := by rw [depth_abs, hfs, hfs']
+          have hlen : (f :: r0).length ≤ o.maxDepth + 1 := by
+            rw [← hfs', ← hfs, abs_length]; have := hI.inv.depth; omega
+          rw [hdepth, hsrc] at hr
+          have key : ∃ toks, tokValue o (2 * v.length + 2) (c :: s) = some (toks, rest) ∧ ∀ more,
+              e.out ++ renderFrom o (f :: r0) (toks ++ more) =
+                b' ++ NL (f.bump :: r0) ++ renderFrom o (f.bump :: r0) more := by
+            by_cases hq : normKind c = 0x22
+            · exact string_value o (2 * v.length + 1) e.out _ b' rest c s f r0 _ hq hbt hr
+            · have hnn : f.needName = false := by
+                -- the PDA admitted a non-string first token, so the frame does not need a name
+                have hst := (valueSM_ok_iff hI hb (valueKind v) _ hk).mp ⟨_, hv⟩ |>.1
+                rw [hfs'] at hst
+                cases hn : f.needName with
+                | false => rfl
+                | true =>
+                  exfalso
+                  rw [hkind] at hst
+                  unfold firstKind at hst
+                  rw [if_neg hq] at hst
+                  split at hst <;> (try split at hst) <;> (try split at hst) <;> simp [step, hn] at hst
+              exact (raw_all o (2 * v.length + 2)).1 e.out _ (c :: s) b' rest f r0 hnn hlen hbt hr
+          obtain ⟨toks, ht, hrn⟩ := key
+          refine ⟨toks, rest, by rw [hsrc]; exact ht, ?_⟩
+          have := hrn []
+          simp only [List.append_nil, renderFrom] at this
+          rw [commit_out, valueSM_stack hv, this]
+          have hst : e.m.stack.length = r0.length := by
+            have := abs_length e.m; rw [hfs, hfs'] at this; simp at this; omega
+          simp [NL, hst]
 
 end JsonV.Lemmas.EncRaw
